@@ -100,6 +100,8 @@ def _execute(prog, plan=None, rnd=None, switch_prob=0.0, files=None):
         horizon = 50.0
     elif loop == 'server-close':
         steps = [('at', 1.0), ('raw', F(8, refws.close_payload(1000, 'srv')))]
+    elif loop == 'server-close-reply':
+        steps = [('at', 1.0), ('raw', F(8, refws.close_payload(1000, 'reply')))]
     elif loop == 'server-ping-close':
         steps = [('at', 1.0), ('raw', F(9, b'srv-ping') + F(8, refws.close_payload(1000, 'srv')))]
     with sched.InstalledShim():
@@ -113,6 +115,9 @@ def _execute(prog, plan=None, rnd=None, switch_prob=0.0, files=None):
                 if ev.name == 'poll' or len(evs) > 10:
                     break
             out.setup_ok = bool(evs) and evs[-1] == 'poll'
+            for call in prog.get('pre', ()):
+                # single-threaded set-up actions before the scheduled phase (e.g. the client has already closed)
+                getattr(ws, call[0])(*call[1:])
             s = sched.Scheduler(plan=plan, rnd=rnd, switch_prob=switch_prob, files=files)
             w.yield_hook = lambda tag: (out.__dict__.__setitem__('mid', out.__dict__.get('mid', 0) + 1), s.yield_point(tag))
             w.thread_name = lambda: s.current.name if s.current else 'main'
